@@ -9,7 +9,7 @@ from __future__ import annotations
 import re
 
 from vf.gen import classical as gc
-from vf.harness import controller as hc, l2
+from vf.harness import codec, controller as hc, l2
 from vf.ref import interp as ri
 
 PID = "C04"
@@ -59,7 +59,7 @@ def cases(ctx):
                 break
         # (every fifth history runs under the hardware setting, where register and array values are also checked for width:
         # a 32-bit overflow is then a loud refusal, everything else is as on the simulator)
-        yield {"kind": "history", "units": units, "subs": subs, "hw": rng.random() < 0.2, "again": rng.random() < 0.34}
+        yield {"kind": "history", "units": units, "subs": subs, "hw": rng.random() < 0.2, "again": rng.choice([None, None, None, None, "stop", "fresh-executor"])}
 
 
 def run_case(ctx, case):
@@ -83,16 +83,25 @@ def _run_case(ctx, case):
     # every third history is run a second time on the same executor after all its applications were stopped and registered again:
     # a run after a stop behaves like a run on a fresh executor (whatever happened before the stop - also a fault)
     rounds = 2 if case.get("again") else 1
+    sub_objs = []
     for round_ in range(rounds):
-        round_tag = "" if round_ == 0 else " [second run of the history, after every application was stopped and registered again]"
+        round_tag = "" if round_ == 0 else (" [second run of the history, on a second executor that is handed the same Subroutine objects]" if case.get("again") == "fresh-executor"
+                                            else " [second run of the history, after every application was stopped and registered again]")
         if round_ == 1:
             if not complete:
                 break
-            ctx.count("histories_run_again_after_stop")
-            for a in range(len(case["units"])):
-                hc.drive(side.ex.stop_application(a), side.ex, None)
-            del side.ex.ret_log[:]
-            del side.ex.ret_mismatch[:]
+            if case.get("again") == "fresh-executor":
+                # ... or on ANOTHER executor (a second node started in the same process), which is handed the very Subroutine
+                # objects the first one ran
+                ctx.count("histories_run_again_on_a_second_executor")
+                side = l2.ExecSide(name="node", step_limit=700)
+                set_is_using_hardware(bool(case.get("hw")))
+            else:
+                ctx.count("histories_run_again_after_stop")
+                for a in range(len(case["units"])):
+                    hc.drive(side.ex.stop_application(a), side.ex, None)
+                del side.ex.ret_log[:]
+                del side.ex.ret_mismatch[:]
         refs = []
         for a, u in enumerate(case["units"]):
             side.init_app(a, u)
@@ -105,7 +114,9 @@ def _run_case(ctx, case):
                 ctx.count("discarded_" + r_out)
                 complete = False
                 break
-            e_out, e_info = side.run(app, prog)
+            if round_ == 0:
+                sub_objs.append(codec.mk_subroutine("vanilla", (0, 10), app, prog))
+            e_out, e_info = side.run_subroutine(sub_objs[k])
             ctx.count("subroutines_judged")
             if len(r_info["trace"]) >= 8:
                 nontrivial = True
